@@ -9,7 +9,7 @@
 (* <<clause id, line number>> pairs that failed.                            *)
 (*                                                                         *)
 (* Input  (IOEnv.TRACE_FILE): [programs |-> Seq(P), traces |-> Seq(T)]      *)
-(*   T = [id, pi (index into programs), amb, overlap, lines]                *)
+(*   T = [id, pi (index into programs), amb, overlap, poolmissing, lines]   *)
 (* Output (IOEnv.OUT_FILE): JSON sequence of [id, viol |-> Seq(<<c, l>>)]   *)
 (***************************************************************************)
 EXTENDS Dataflow, Json, IOUtils
@@ -173,6 +173,9 @@ CheckReturn(P, T, sm, s, ln) ==
     IN
     IF s.cancelled
     THEN (IF kind = "cancelled" THEN {} ELSE {"C13.cancel"})
+    ELSE IF T.poolmissing
+    THEN (* a pool the program needs is not registered / shut down: error result before any body is invoked *)
+         (IF kind = "error" /\ v[1] = "exc" /\ Count(s.log, IsBS) = 0 THEN {} ELSE {"C17.pool"})
     ELSE
       (IF kind = "cancelled" \/ v = <<"cancelled">> THEN {"C05.noartefact"} ELSE {})
       \cup
